@@ -568,8 +568,20 @@ def monitorOp (mu : Mon) (prev : Args) (toks : List String) (implOk : Bool) (out
         else []
       | none => []
     -- a successful migrate stores the current version: later migrates are not upgrades from a legacy layout
+    -- C12, upgrade path: a successful migrate of an older contract records the code's version (otherwise the next
+    -- migrate runs the one-shot balance reconciliation again); a same-or-newer stored version is left as it is
+    let older := match mu.legacyVer with
+      | some (x, y, z) => let v := Ics20.CONTRACT_VERSION
+                          x < v.major || (x == v.major && (y < v.minor || (y == v.minor && z < v.patch)))
+      | none => false
+    let fver := if kind == "migrate" && implOk && older then
+        let v := Ics20.CONTRACT_VERSION
+        let want := s!"{Ics20.CONTRACT_NAME}@{v.major}.{v.minor}.{v.patch}"
+        if cur.str "cw2" == want || cur.str "cw2" == "" then [] else
+          [mk "C12" "C12/migrate-version-not-recorded" s!"stored={cur.str "cw2"} expected={want}"]
+      else []
     let mu := if kind == "migrate" && implOk then { mu with legacyVer := none } else mu
-    let f12 := if !mu.inited then [] else fmig ++
+    let f12 := if !mu.inited then [] else fmig ++ fver ++
       -- outstanding = sent − failed-or-timed-out − redeemed, total_sent = sent
       (pairs.filterMap fun k =>
         let o := obsOut cur k.1 k.2
